@@ -57,10 +57,11 @@ def standard(res, translators, prop_mods, streams, level, checker, rule, extra_a
     L.run_translators(translators, res)
     L.prove(prop_mods, res, extra_audit)
     if L.build_harness(res) and L.build_model(res):
-        for stream, args, model_stream in streams:
+        for spec in streams:
+            stream, args, model_stream = spec[:3]
             lines = harness_lines(stream, args, res)
             if lines is not None:
-                L.compare_lines(lines, model_stream, res, stream)
+                L.compare_lines(lines, model_stream, res, stream, ignore_oracle=(len(spec) > 3 and spec[3] == "no-oracle"))
     return L.finish(res, level, checker, rule)
 
 
@@ -254,3 +255,22 @@ def check_C11(res, replay):
                     "molecules (chains, rings incl. three-membered, clusters of arbitrary elements, metals) as built and distorted: assigned types and the sorted term list "
                     "(kind, atoms as stored, parameter bit patterns) of UFF and RB compared with the model; the property's multiset predicates evaluated on the real term lists",
                     extra_audit=BUILD_AUDIT)
+
+
+# ---------------------------------------------------------------------------------------------------- C12
+
+def check_C12(res, replay):
+    res.trusted = TB_COMMON + ["Mathlib (real analysis for the type-B bend's derivative statements)",
+                               "Lean re-expression Model/GenTypes.lean of generate_atom_types.py (valency rules, oxidation state, flags, barrier table, five-decimal theta)",
+                               "hooks verif_r0 / verif_r_bo / verif_r_en / verif_k_ij / verif_k_ijk / verif_from_type_indices",
+                               "axioms audited: subset of {propext, Classical.choice, Quot.sound}"]
+    res.assumptions = [REAL_ASSUMPTION,
+                       "table identity: text fields identical, numeric fields equal as exact decimals, theta to the generator's five decimals with the compiled PI / FRAC_PI_2 standing for 3.14159 / 1.57080",
+                       "van der Waals 'distance parameter' is read as the type's r column, as theory.tex defines sigma (the x column of the table is not used by the code)"]
+    res.exhaustive = True
+    return standard(res, ["tables", "terms", "uff"], ["OptRs.Props.C12"], [("params", [], "params"), ("build", [], "build", "no-oracle")], "proof",
+                    "lake build OptRs.Props.C12 (closed forms of the re-translated formulas; type-B minimum/curvature via HasDerivAt; decide +kernel over all 127x14 table fields) + #print axioms audit",
+                    "the private parameter methods on pairs of the 127 atom types x orders 1, 1.5, 2, 3 (a quarter of all pairs in quick, all in thorough) and on random triples "
+                    "for k_ijk, compared bit for bit with the model's evaluation of the translated formulas on the translated tables, and with the published equations written "
+                    "independently in the harness; plus every parameter of every term of the built force fields of the `build` stream",
+                    extra_audit=["OptRs.Model.GenTypes", "OptRs.Calc.Real", "OptRs.Model.BuildUFF"])
